@@ -191,6 +191,12 @@ def generate(seed, tier):
         while not spec.is_expr_term(t):
             t = g.term(0)
         terms.append(t)
+    if r.random() < 0.25:
+        # numpy scalars that are equal, of one dtype, and still not the same constant
+        vx = ["n", "Variable", [["s", "x"]]]
+        for z in ("0.0", "-0.0"):
+            terms.append(["n", r.choice(["Sum", "Product"]),
+                          [["t", [vx, ["np", "float64", z]]]]])
     # the same expression with and without shared sub-objects (pickle keeps the sharing)
     for t in list(terms):
         if r.random() < 0.35:
